@@ -11,12 +11,35 @@ from specs import openssh_files as F
 PROP = 'C17'
 
 ASSUMPTIONS = [
-    'fnmatch.fnmatch, ipaddress.ip_address / ip_network and hmac/sha1 are external: uninterpreted functions with '
-    'assumed contracts; the fnmatch contract (with the bracket escaping it is the OpenSSH wildcard language) is '
-    'checked by a bounded exhaustive differential test, not proved',
-    'a matcher object is identified with the pattern text it was built from (build_pattern is a function of the '
-    'text); matcher behaviour is an uninterpreted predicate of (matcher, arguments)',
-    'str.split(sep) is an uninterpreted list of at least one piece (assumed contract of the built-in)',
+    'external libraries are uninterpreted functions with assumed contracts: fnmatch.fnmatch (total, functional), '
+    'ipaddress via misc.ip_address / ip_network (value or ValueError, decided by a predicate of the text), '
+    'binascii.a2b_base64 (value or binascii.Error), hmac/sha1 (functional), str.split / splitlines / strip '
+    '(functional; split(sep, 1) is modelled exactly, split(None, k) has at most k+1 fields and none iff strip() is '
+    'empty), key / certificate / subject import (value or KeyImportError: C10/C15 signals clause)',
+    'that fnmatch on the bracket-escaped text IS the OpenSSH wildcard language (*, ?, literals) is not proved: it is '
+    'the bounded exhaustive differential check C17.bounded#wildcard-vs-fnmatch-escaping; the escaping itself '
+    '(_pattern == esc(text)) is proved',
+    'layering by identification: a matcher object is identified with the text it was built from '
+    '(build_pattern / HostPatternList / _PlainHost / _HashedHost are functions of the text) and its behaviour is an '
+    'uninterpreted predicate at each module boundary; the predicate of an upper layer is DEFINED by the contract '
+    'proved one layer down (hostpat_matches(PlainHost(t)) := hostlist_matches(HostPatternList(t)) := the '
+    '_PatternList contract over split(t, ",") with pat_matches_host(build_pattern(x)) := the WildcardHostPattern / '
+    'CIDRHostPattern contracts).  The text-level end-to-end behaviour is additionally compared with the reference '
+    'implementation on real files (bounded checks known-hosts-lookup, authorized-keys-validate, pattern-lists)',
+    'recursive spec functions (pos/neg patterns of a list, escape, selected pattern entries, per-marker result '
+    'lists, exact-index fold, tokenizer state, per-file entry lists) are uninterpreted; only instances of their '
+    'recursive definition (empty / snoc) are assumed.  Prefix facts s[:0]=[], s[:i]=s[:i-1]++[s[i-1]], s[:len]=s are '
+    'proved once for arbitrary s, i (lemmas C17.lemma#prefix-*) and then instantiated',
+    'SSHKnownHosts._match is verified in two parts composed at the cut assertion matches == selected(...) '
+    '([select] establishes it, [classify] starts from an arbitrary list); SSHKnownHosts.match uses the composed '
+    'contract.  load() is specified through a ghost log of the _add_exact/_add_pattern calls whose effect on the '
+    'tables is proved separately; class invariant "every indexed entry has a key, certificate or subject" is '
+    'assumed at _match (AssertionError otherwise) and established by load (each logged entry has one)',
+    'equality of keys is the abstract "same key" relation (SSHKey.__eq__ compares public data: not re-verified here)',
+    'not under contract: match_known_hosts argument dispatch (callable / list / bytes forms), read_* file access, '
+    '_add_environment / _add_permitopen / _add_subject value parsing (bounded check option-handlers only), '
+    'validate_x509, sshsig allowed-signers entries',
+    '_x509_available is a symbolic flag (False in the sandbox, True with cryptography-x509): both values verified',
 ]
 
 # ----------------------------------------------------------------------------- pattern.py: _PatternList
@@ -73,7 +96,7 @@ def _pl_matches(tag, argt, mfun):
     sp = Spec(PROP, 'pattern', '_PatternList.matches', self_class='_PatternList',
               params=dict(args='tuple[' + ','.join(argt) + ']'), classes={'_PatternList': PL_FIELDS},
               stubs={'p.matches': stub},
-              ensures=[('some-positive-and-no-negated-pattern-matches(negation-wins)', post)], returns='bool')
+              ensures=[('some-positive-and-no-negated(negation-wins)', post)], returns='bool')
     sp.tag = tag
     return sp
 
@@ -204,7 +227,12 @@ host_build_pattern = Spec(
 HPL, WPL, XPAT = opaque_sort('HPL'), opaque_sort('WPL'), opaque_sort('XPat')    # pattern-list objects held in options
 ENTRY, KEY, OPTS = opaque_sort('Entry'), opaque_sort('Key'), opaque_sort('Options')
 SSTR = F.SSTR
-hpl_matches = z3.Function('hostlist_matches', HPL, StrS, StrS, F.IP, BoolS)   # HostPatternList.matches(host, addr, ip)
+hostlist_matches = z3.Function('hostlist_matches', HPL, StrS, StrS, sort_of(IPO), BoolS)   # HostPatternList.matches(host, addr, ip)
+
+
+def hpl_matches(lst, host, addr, ip):
+    """the same predicate with a definite (non-None) address object"""
+    return hostlist_matches(lst, host, addr, sort_of(IPO).constructor(1)(ip))
 wpl_matches = z3.Function('namelist_matches', WPL, StrS, BoolS)               # WildcardPatternList.matches(name)
 xpat_matches = z3.Function('x509pattern_matches', XPAT, opaque_sort('X509Name'), BoolS)
 _OF = 'opt[seq[opaque:HPL]]'
@@ -294,7 +322,7 @@ match_options = Spec(
     stubs={'self.options.get': options_get_stub, 'pattern.matches': list_matches_stub,
            'ip_address': ip_address_stub},
     returns='bool',
-    ensures=[('all-from-lists-and-all-principals-lists-and-all-subject-patterns-match',
+    ensures=[('all-from-principals-subject-lists-match',
               lambda c: c.result == spec_match_options(c.old('options'), c.arg('client_host'), c.arg('client_addr'),
                                                        c.argv('cert_principals'), c.argv('cert_subject')))],
     # the peer address of a connection is always an IP literal; anything else is rejected loudly
@@ -352,7 +380,7 @@ validate = Spec(
     classes={'SSHAuthorizedKeys': {'_user_entries': 'seq[opaque:Entry]', '_ca_entries': 'seq[opaque:Entry]'}},
     stubs={'entry.match_options': entry_match_options_stub},
     loops={1: LoopSpec(invariant=validate_inv)},
-    ensures=[('first-entry-whose-key-equals-and-whose-options-match(else-None;CA-list-iff-ca)', validate_post)])
+    ensures=[('first-match(key-equal-and-options-accept)', validate_post)])
 validate.opaque_attrs = {('Entry', 'key'): 'opt[opaque:Key]', ('Entry', 'options'): 'opaque:Options'}
 validate.no_replay = True
 
@@ -481,7 +509,7 @@ kh_match_select = TSpec(
     stubs={'ip_address': ip_address_stub, 'entry.matches': hostpat_matches_stub},
     loops={'g1': _kh_gen},
     region=lambda fn: fn.body[:_kh_cut(fn)],
-    ensures=[('selected-entries(exact-name,exact-address,matching-pattern-lines;port-form-for-nondefault-port)',
+    ensures=[('selected==exact(name)+exact(addr)+matching-patterns',
               lambda c: _lz(c, c.localv('matches'), 'seq[' + ENTRY_T + ']') == kh_selected(c))],
     raises={'ValueError': _KH_RAISES_VALUE})
 kh_match_select.tag = 'select'
@@ -518,7 +546,7 @@ kh_match_classify = TSpec(
     loops={1: LoopSpec(invariant=kh_class_inv, lemmas=kh_class_lemmas)},
     local_types=dict(zip(KH_LOCALS, KH_RESULT_T)),
     region=lambda fn: fn.body[_kh_cut(fn):], setup=_kh_classify_setup,
-    ensures=[(n.replace('_', '-') + '-are-the-selected-entries-of-that-class', kh_classify_post(i))
+    ensures=[(n.replace('_', '-') + '==selected-entries-of-that-class', kh_classify_post(i))
              for i, n in enumerate(KH_LOCALS)],
     raises={'AssertionError': lambda c: kh_bad_entry_in(_kh_m0(c))})
 kh_match_classify.tag = 'classify'
@@ -550,12 +578,14 @@ def kh_fallback_post(i):
     def post(c):
         """sshd(8)/ssh(1): for a non-default port the '[host]:port' entries are consulted first; when they trust
         nothing (no host key, CA, X.509 certificate or subject - revocations alone do not count) the plain names
-        are looked up instead"""
+        are looked up instead; revocations found for the port form are kept"""
         with_port = [F.kh_list(k, kh_selected(c, True)) for k in range(7)]
         plain = [F.kh_list(k, kh_selected(c, False)) for k in range(7)]
         nothing = z3.And(*[z3.Length(with_port[k]) == 0 for k in (0, 1, 3, 5)])
         fb = z3.And(_port_given(c.argv('port')), nothing)
-        return _lz(c, c.result_v.items[i], KH_RESULT_T[i]) == z3.If(fb, plain[i], with_port[i])
+        # a revocation recorded for '[host]:port' stays in force when the trust lists fall back to the plain name
+        fallback = z3.Concat(with_port[i], plain[i]) if i in (2, 4, 6) else plain[i]
+        return _lz(c, c.result_v.items[i], KH_RESULT_T[i]) == z3.If(fb, fallback, with_port[i])
     return post
 
 
@@ -563,7 +593,7 @@ kh_match_public = Spec(
     PROP, 'known_hosts', 'SSHKnownHosts.match', self_class='SSHKnownHosts',
     params=dict(host='str', addr='str', port='opt[int]'), classes={'SSHKnownHosts': KH_FIELDS},
     stubs={'self._match': _match_call_stub},
-    ensures=[(n.replace('_', '-') + '(port-specific-else-fallback-to-plain-name)', kh_fallback_post(i))
+    ensures=[(n.replace('_', '-') + '(port-form-else-plain-fallback)', kh_fallback_post(i))
              for i, n in enumerate(KH_LOCALS)],
     raises={'ValueError': _KH_RAISES_VALUE,
             'AssertionError': lambda c: z3.Or(kh_bad_entry_in(kh_selected(c, True)),
@@ -613,10 +643,10 @@ add_exact = Spec(
     loops={1: LoopSpec(invariant=lambda c: z3.And(add_exact_state(c, c.extra['iter'].z, c.extra['i']),
                                                   add_exact_indexed(c, c.extra['iter'].z, c.extra['i'])),
                        lemmas=add_exact_lemmas, modifies=['_exact_entries'])},
-    ensures=[('index-is-old-index-plus-entry-under-each-comma-separated-name',
+    ensures=[('index==old+entry-under-each-comma-name',
               lambda c: add_exact_state(c, F.split_comma(c.arg('pattern')),
                                         z3.Length(F.split_comma(c.arg('pattern'))))),
-             ('every-comma-separated-name-is-a-key-ending-with-the-entry',
+             ('every-comma-name-is-a-key-ending-with-entry',
               lambda c: add_exact_indexed(c, F.split_comma(c.arg('pattern')),
                                           z3.Length(F.split_comma(c.arg('pattern'))))),
              ('pattern-table-untouched', lambda c: c.new('_pattern_entries') == c.old('_pattern_entries'))])
@@ -650,7 +680,7 @@ add_pattern = Spec(
     PROP, 'known_hosts', 'SSHKnownHosts._add_pattern', self_class='SSHKnownHosts',
     params=dict(pattern='str', entry=ENTRY_T), classes={'SSHKnownHosts': KH_FIELDS},
     stubs={'_HashedHost': hashed_ctor_stub, '_PlainHost': plain_ctor_stub},
-    ensures=[('appended-with-hashed-matcher-iff-field-starts-with-bar', lambda c: c.new('_pattern_entries') == z3.Concat(
+    ensures=[('appended(hashed-matcher-iff-leading-bar)', lambda c: c.new('_pattern_entries') == z3.Concat(
         c.old('_pattern_entries'), z3.Unit(F.PE.constructor(0)(
             z3.If(z3.PrefixOf(z3.StringVal('|'), c.arg('pattern')), mk_hashed(c.arg('pattern')),
                   mk_plain(c.arg('pattern'))), to_z3(c.argv('entry'), ENTRY_T))))),
@@ -673,8 +703,7 @@ def hpl_ctor_stub(cx):
 
 def hpl_matches_stub(cx):
     a = cx.args
-    return VBool(z3.Function('hostlist_matches_opt', HPL, StrS, StrS, sort_of(IPO), BoolS)(
-        cx.recv.z, a[0].z, a[1].z, to_z3(a[2], IPO)))
+    return VBool(hostlist_matches(cx.recv.z, a[0].z, a[1].z, to_z3(a[2], IPO)))
 
 
 hpl_ctor_stub.modifies = hpl_matches_stub.modifies = ()
@@ -687,9 +716,8 @@ plain_init = Spec(PROP, 'known_hosts', '_PlainHost.__init__', self_class='_Plain
 plain_matches = Spec(
     PROP, 'known_hosts', '_PlainHost.matches', self_class='_PlainHost',
     params=dict(host='str', addr='str', ip=IPO), returns='bool',
-    ensures=[('delegates-to-the-pattern-list-with-host-addr-ip', lambda c: c.result == z3.Function(
-        'hostlist_matches_opt', HPL, StrS, StrS, sort_of(IPO), BoolS)(
-            c.old('_pattern'), c.arg('host'), c.arg('addr'), to_z3(c.argv('ip'), IPO)))], **_PH)
+    ensures=[('delegates-to-the-pattern-list-with-host-addr-ip', lambda c: c.result == hostlist_matches(
+        c.old('_pattern'), c.arg('host'), c.arg('addr'), to_z3(c.argv('ip'), IPO)))], **_PH)
 plain_matches.no_replay = True
 
 b64_ok = z3.Function('base64_decodes', StrS, BoolS)          # binascii.a2b_base64(text) does not raise
@@ -810,7 +838,7 @@ parse_options = Spec(
                        modifies=['ghost_opts'])},
     returns='str',
     ensures=[('option-field-ends-at-first-unquoted-blank', tok_end_is_right),
-             ('options-are-the-comma-separated-tokens-with-quotes-and-escapes-removed', tok_options_post),
+             ('options-are-the-unquoted-comma-tokens', tok_options_post),
              ('quotes-and-backslashes-balanced', lambda c: z3.And(z3.Not(F.tq(_tok_end(c)[1])),
                                                                   z3.Not(F.te(_tok_end(c)[1])))),
              ('returns-rest-of-line-after-the-blank-stripped', lambda c: z3.Implies(
@@ -872,18 +900,32 @@ def add_option_post(c):
         hz = h.val.z if isinstance(h, VOpt) else h.z
         return z3.And(has_eq, z3.BoolVal(len(evs) == 1), z3.Not(hv.isnone), hz == hv.val.z,
                       a_name.z == name, a_value.z == value)
+    was_list = z3.Or(z3.Not(z3.Select(m0.dom, name)), P.is_py_strlist(z3.Select(m0.val, name)))
     return z3.And(z3.Not(z3.PrefixOf(EQ, o)),
-                  z3.If(has_eq, z3.And(hv.isnone, accum), flag))
+                  z3.If(has_eq, z3.And(hv.isnone, was_list, accum), flag))
+
+
+def _flag_then_value(c):
+    P = pyobj_sort()
+    o = c.arg('option')
+    name, _value = _name_value(o)
+    m0 = c.oldv('options')
+    hv = from_z3(handler_of(name), 'opt[opaque:Handler]')
+    return z3.And(z3.Contains(o, EQ), hv.isnone, z3.Select(m0.dom, name),
+                  z3.Not(P.is_py_strlist(z3.Select(m0.val, name))))
 
 
 add_option = Spec(
     PROP, 'misc', 'OptionsParser._add_option', self_class='OptionsParser', params=dict(option='str'),
     classes={'OptionsParser': {'options': 'dict[str,pyobj]'}},
     stubs={'self._handlers.get': handlers_get_stub, 'handler': handler_call_stub},
-    ensures=[('flag-or-name=value(handler-dispatch-or-accumulate)', add_option_post)],
+    ensures=[('flag-or-name=value(dispatch-or-accumulate)', add_option_post)],
     raises={'ValueError': lambda c: z3.Or(
-        z3.And(z3.PrefixOf(EQ, c.arg('option')), z3.BoolVal(len(c.events('handler')) == 0),
-               c.newv('options').dom == c.oldv('options').dom, c.newv('options').val == c.oldv('options').val),
+        # no option name, or a keyword used both as a flag and with a value: rejected, nothing stored
+        z3.And(z3.BoolVal(len(c.events('handler')) == 0),
+               c.newv('options').dom == c.oldv('options').dom, c.newv('options').val == c.oldv('options').val,
+               z3.Or(z3.PrefixOf(EQ, c.arg('option')), _flag_then_value(c))),
+        # or the option-specific handler rejected the value
         z3.BoolVal(len(c.events('handler')) == 1))})
 add_option.no_replay = True
 
@@ -964,7 +1006,7 @@ kh_load = Spec(
                                    'self._add_exact': _add_log_stub(False, False)}),
     loops={1: LoopSpec(header='for line in known_hosts.splitlines()', invariant=kh_load_inv, lemmas=kh_load_lemmas,
                        modifies=['ghost_added'])},
-    ensures=[('one-index-operation-per-parsable-line(unparsable-keys-skipped;routing-by-pattern-syntax)',
+    ensures=[('one-index-op-per-parsable-line(skip+routing)',
               lambda c: c.new('ghost_added') == z3.Concat(
                   c.old('ghost_added'), F.kh_file(F.splitlines(c.arg('known_hosts')), X509))),
              ('no-malformed-line-or-unknown-marker-accepted',
@@ -1032,7 +1074,7 @@ ak_load = Spec(
     loops={1: LoopSpec(header='for line in authorized_keys.splitlines()',
                        invariant=lambda c: ak_load_state(c, c.extra['iter'].z, c.extra['i']),
                        lemmas=ak_load_lemmas, modifies=AK_LISTS)},
-    ensures=[('entries-appended-in-file-order-by-class(unparsable-keys-skipped,others-untouched)',
+    ensures=[('entries-by-class-in-file-order(bad-keys-skipped)',
               lambda c: ak_load_state(c, _ak_lines(c), z3.Length(_ak_lines(c)))),
              ('some-valid-entry-exists', lambda c: z3.Or(*[z3.Length(c.new(f)) > 0 for f in AK_LISTS]))],
     raises={'ValueError': ak_load_raises})
@@ -1041,12 +1083,188 @@ ak_load.no_replay = True
 ak_load.feasible_timeout_ms = 250
 
 
+# ----------------------------------------------------------------------------- auth_keys.py: one entry
+AKE_FIELDS = {'options': 'dict[str,pyobj]', 'key': 'opt[opaque:Key]', 'cert': 'opt[opaque:Cert]'}
+cert_subject = z3.Function('attr_Cert_subject', opaque_sort('Cert'), opaque_sort('X509Name'))
+cert_issuer = z3.Function('attr_Cert_issuer', opaque_sort('Cert'), opaque_sort('X509Name'))
+CA = z3.StringVal('cert-authority')
+
+
+def add_subject_stub(cx):
+    return [Out(event=('add_subject', tuple(cx.args)),
+                sets={'options': cx.fresh('dict[str,pyobj]', 'options_with_subject')})]
+
+
+add_subject_stub.modifies = ('options',)
+
+
+def import_kc_post(c):
+    """sshd(8) + X.509 extension: the key field is a public key, else a certificate, else (not for CAs) an X.509
+    subject name; exactly the first form that parses is stored"""
+    line = c.arg('line')
+    ca = z3.Select(c.oldv('options').dom, CA)
+    subj = c.events('add_subject')
+    kv, cv = c.newv('key'), c.newv('cert')
+    is_key = F.pk_ok(line)
+    is_cert = z3.And(z3.Not(is_key), F.cert_ok(line))
+    if subj:
+        return z3.And(z3.Not(F.pk_ok(line)), z3.Not(F.cert_ok(line)), z3.Not(ca), F.subj_ok(line),
+                      z3.BoolVal(len(subj) == 1), subj[0][1][0].z == z3.StringVal('subject'),
+                      subj[0][1][1].z == F.subj_text(line), c.is_none(kv), c.is_none(cv))
+    same_opts = z3.And(c.newv('options').dom == c.oldv('options').dom, c.newv('options').val == c.oldv('options').val)
+    return z3.And(same_opts, z3.Or(
+        z3.And(is_key, c.eq(kv, VOpaque(F.pk_of(line), 'Key')), c.eq(cv, c.oldv('cert'))),
+        z3.And(is_cert, c.eq(cv, VOpaque(F.cert_of(line), 'Cert')), c.eq(kv, c.oldv('key')),
+               z3.Not(z3.And(ca, cert_subject(F.cert_of(line)) != cert_issuer(F.cert_of(line)))))))
+
+
+import_key_or_cert = Spec(
+    PROP, 'auth_keys', '_SSHAuthorizedKeyEntry._import_key_or_cert', self_class='_SSHAuthorizedKeyEntry',
+    params=dict(line='str'), classes={'_SSHAuthorizedKeyEntry': AKE_FIELDS},
+    stubs=dict({k: v for k, v in KH_IMPORT_STUBS.items() if k != 'X509NamePattern'},
+               **{'self._add_subject': add_subject_stub}),
+    ensures=[('first-of-key-certificate-subject-that-parses', import_kc_post)],
+    raises={'KeyImportError': lambda c: z3.And(
+        z3.Not(F.pk_ok(c.arg('line'))), z3.Not(F.cert_ok(c.arg('line'))),
+        z3.Or(z3.Select(c.oldv('options').dom, CA), z3.Not(F.subj_ok(c.arg('line'))))),
+        'ValueError': lambda c: z3.And(
+            z3.Not(F.pk_ok(c.arg('line'))), F.cert_ok(c.arg('line')), z3.Select(c.oldv('options').dom, CA),
+            cert_subject(F.cert_of(c.arg('line'))) != cert_issuer(F.cert_of(c.arg('line'))))})
+import_key_or_cert.opaque_attrs = {('Cert', 'subject'): 'opaque:X509Name', ('Cert', 'issuer'): 'opaque:X509Name'}
+import_key_or_cert.no_replay = True
+
+importable = z3.Function('entry_key_field_importable', StrS, IntS)     # 0 stored, 1 KeyImportError, 2 ValueError
+rest_of = z3.Function('options_rest_of_line', StrS, StrS)             # what _parse_options(line) returns
+opts_ok = z3.Function('options_field_valid', StrS, BoolS)             # _parse_options(line) does not raise
+
+
+def ake_import_stub(cx):
+    t = cx.args[0].z
+    ev = ('import', tuple(cx.args))
+    return [Out(assume=[importable(t) == 0], event=ev),
+            Out(exc=VExc('KeyImportError'), assume=[importable(t) == 1], event=ev),
+            Out(exc=VExc('ValueError'), assume=[importable(t) == 2], event=ev)]
+
+
+def ake_parse_stub(cx):
+    t = cx.args[0].z
+    ev = ('parse_options', tuple(cx.args))
+    return [Out(ret=VStr(rest_of(t)), assume=[opts_ok(t)], event=ev),
+            Out(exc=VExc('ValueError'), assume=[z3.Not(opts_ok(t))], event=ev)]
+
+
+def ake_super_init_stub(cx):
+    m = cx.fresh('dict[str,pyobj]', 'empty_options')
+    k = z3.String(fresh_name('k'))
+    return [Out(sets={'options': m}, assume=[z3.ForAll([k], z3.Not(z3.Select(m.dom, k)))])]
+
+
+ake_import_stub.modifies = ake_parse_stub.modifies = ()
+ake_super_init_stub.modifies = ('options',)
+
+
+def ake_init_post(c):
+    """sshd(8): a line is [options] keytype key [comment]; it has an option field exactly when the whole line does
+    not start with a key"""
+    line = c.arg('line')
+    evs = c.events()
+    names = [e[0] for e in evs]
+    whole = importable(line)
+    if names == ['import']:
+        return z3.And(evs[0][1][0].z == line, whole == 0)
+    return z3.And(z3.BoolVal(names == ['import', 'parse_options', 'import']), whole == 1,
+                  evs[0][1][0].z == line, evs[1][1][0].z == line, evs[2][1][0].z == rest_of(line),
+                  opts_ok(line), importable(rest_of(line)) == 0)
+
+
+ake_init = Spec(
+    PROP, 'auth_keys', '_SSHAuthorizedKeyEntry.__init__', self_class='_SSHAuthorizedKeyEntry',
+    params=dict(line='str'), classes={'_SSHAuthorizedKeyEntry': AKE_FIELDS},
+    stubs={'super': lambda cx: cx.ex.self_ref, 'super().__init__': ake_super_init_stub,
+           'self._import_key_or_cert': ake_import_stub, 'self._parse_options': ake_parse_stub},
+    ensures=[('key-first-else-options-then-key', ake_init_post)],
+    raises={'KeyImportError': lambda c: z3.And(importable(c.arg('line')) == 1, opts_ok(c.arg('line')),
+                                               importable(rest_of(c.arg('line'))) == 1),
+            'ValueError': lambda c: z3.Or(importable(c.arg('line')) == 2,
+                                          z3.And(importable(c.arg('line')) == 1, z3.Or(
+                                              z3.Not(opts_ok(c.arg('line'))),
+                                              importable(rest_of(c.arg('line'))) == 2)))})
+ake_init.no_replay = True
+
+
+# ----------------------------------------------------------------------------- auth_keys.py: option handlers
+mk_wpl = z3.Function('WildcardPatternList', StrS, WPL)
+
+
+def _list_handler(qual, ctor, mk, sort):
+    def ctor_stub(cx):
+        return VOpaque(mk(cx.args[0].z), sort)
+    ctor_stub.modifies = ()
+    ctor_stub.spec_getter = lambda: patternlist_init
+
+    def post(c):
+        m0, m1 = c.oldv('options'), c.newv('options')
+        o, v = c.arg('option'), c.arg('value')
+        old = z3.If(z3.Select(m0.dom, o), z3.Select(m0.val, o), z3.Empty(z3.SeqSort(opaque_sort(sort))))
+        return z3.And(m1.dom == z3.Store(m0.dom, o, True),
+                      m1.val == z3.Store(m0.val, o, z3.Concat(old, z3.Unit(mk(v)))))
+    sp = Spec(PROP, 'auth_keys', '_SSHAuthorizedKeyEntry.' + qual, self_class='_SSHAuthorizedKeyEntry',
+              params=dict(option='str', value='str'),
+              classes={'_SSHAuthorizedKeyEntry': {'options': f'dict[str,seq[opaque:{sort}]]'}},
+              stubs={ctor: ctor_stub},
+              ensures=[('repeats-accumulate-one-list-per-occurrence', post)])
+    sp.no_replay = True
+    return sp
+
+
+add_from = _list_handler('_add_from', 'HostPatternList', mk_hpl, 'HPL')
+add_principals = _list_handler('_add_principals', 'WildcardPatternList', mk_wpl, 'WPL')
+
+set_string = Spec(
+    PROP, 'auth_keys', '_SSHAuthorizedKeyEntry._set_string', self_class='_SSHAuthorizedKeyEntry',
+    params=dict(option='str', value='str'), classes={'_SSHAuthorizedKeyEntry': {'options': 'dict[str,pyobj]'}},
+    ensures=[('value-stored-under-the-option-name', lambda c: z3.And(
+        c.newv('options').dom == z3.Store(c.oldv('options').dom, c.arg('option'), True),
+        c.newv('options').val == z3.Store(c.oldv('options').val, c.arg('option'),
+                                          pyobj_sort().py_str(c.arg('value')))))])
+set_string.no_replay = True
+
+
 # ----------------------------------------------------------------------------- lemmas and bounded stand-ins
 def _prove(goal, timeout_ms=20000):
-    """z3, then cvc5, then z3 again (pyvc.solve pipeline) on a closed goal"""
+    """closed goal: z3 (short budget), then cvc5, then z3 (full budget) - unknown is never a verdict"""
     from pyvc import solve
-    _i, verdict, backend, _t, reason = solve._solve_one((0, solve.to_smt2([], goal), timeout_ms, True))
-    return verdict, (reason if verdict == 'unknown' else backend)
+    smt2 = solve.to_smt2([], goal)
+    try:
+        v, why = solve._z3_try(smt2, 1500)
+    except Exception as e:
+        v, why = 'unknown', repr(e)
+    if v != 'unknown':
+        return v, 'z3'
+    v2, why2 = solve._cvc5(smt2)
+    if v2 != 'unknown':
+        return v2, 'cvc5'
+    try:
+        v, why3 = solve._z3_try(smt2, timeout_ms, seed=7)
+    except Exception as e:
+        v, why3 = 'unknown', repr(e)
+    return v, ('z3' if v != 'unknown' else f'{why} | cvc5: {why2} | z3(2): {why3}')
+
+
+def _native_bounded(tier, seed):
+    """run the differential checks of specs/openssh_files.py against the repository under test (PYVC_REPO)"""
+    import json
+    import os
+    import subprocess
+    from pyvc import extract
+    script = os.path.join(os.path.dirname(os.path.abspath(F.__file__)), 'openssh_files.py')
+    env = dict(os.environ, PYTHONPATH=extract.REPO)
+    try:
+        p = subprocess.run(['/venv/bin/python', script, tier, str(seed)], capture_output=True, text=True, env=env,
+                           cwd='/tmp', timeout=900 if tier == 'thorough' else 240)
+        return json.loads(p.stdout)
+    except Exception as e:          # harness trouble is never a verdict
+        return [{'name': f'{PROP}.bounded#harness', 'cases': 0, 'violations': [], 'error': repr(e)}]
 
 
 def extra_checks(tier, seed):
@@ -1056,4 +1274,10 @@ def extra_checks(tier, seed):
         lemmas.append({'name': f'{PROP}.lemma#{name}', 'verdict': v, 'reason': why,
                        'statement': 'for all s, i: s[:0] == [], 0 <= i-1 < len(s) -> s[:i] == s[:i-1] ++ [s[i-1]], '
                                     'i == len(s) -> s[:i] == s'})
-    return {'lemmas': lemmas, 'bounded': []}
+    bounded = _native_bounded(tier, seed)
+    for b in bounded:
+        if b.get('error') or (not b.get('cases') and not b.get('note')):
+            # a bounded stand-in that could not run must not look like a pass
+            lemmas.append({'name': b['name'] + '(did-not-run)', 'verdict': 'unknown',
+                           'reason': (b.get('error') or 'no cases')[-300:]})
+    return {'lemmas': lemmas, 'bounded': bounded}
